@@ -7,7 +7,7 @@
    AtomicLevel cells hold arbitrary values, trees have any depth and fan-out. *)
 From Coq Require Import List Bool ZArith.
 Import ListNotations.
-From Zap Require Import Base.Wire C05.Cores C05.CoreProofs C05.Sampling C05.SamplingProofs C05.Model C05.Proofs.
+From Zap Require Import Base.Wire C05.Cores C05.CoreProofs C05.Sampling C05.SamplingProofs C05.Updates C05.UpdatesProofs C05.Model C05.Proofs.
 Open Scope Z_scope.
 
 (* Core.Check registers exactly the leaves all of whose level filters enable the level - whatever
@@ -100,6 +100,37 @@ Theorem C05_atomic_history : forall w0 cs ops,
   map (fun ws => (leaves_of ws, hooks_of ws)) (hrun w0 cs ops) = hspec w0 cs [] ops.
 Proof. exact (fun w0 cs ops => atomic_history_thm cs ops w0 [] w0 (fun a => eq_refl)). Qed.
 Print Assumptions C05_atomic_history.
+
+(* ---- every way of changing a shared AtomicLevel (C05/Updates.v) ----
+   An AtomicLevel value is a handle on one shared cell; besides SetLevel the API changes the cell
+   through UnmarshalText (directly, via flag.TextVar, via json/yaml decoding into a live AtomicLevel or
+   zap.Config) and through the ServeHTTP PUT handler (JSON body or form). *)
+
+(* what a route stores: exactly the level the text names (case-insensitively, "warning" = warn, the
+   empty text = info except in a form), and nothing when it names none *)
+Theorem C05_update_routes : forall r t, upd_value r t = spec_upd_value r t.
+Proof. exact upd_value_spec. Qed.
+Print Assumptions C05_update_routes.
+
+(* every interleaving of updates - SetLevel or a text by any route, through any of any number of
+   handles ([hc] says which cell a handle points to) - and log calls on any number of loggers derived
+   from the cells: each call is decided by what the latest successful update of every cell stored *)
+Theorem C05_update_history : forall hc w0 cs ops,
+  map (fun ws => (leaves_of ws, hooks_of ws)) (urun hc w0 cs ops) = uspec hc w0 cs [] ops.
+Proof. exact (fun hc w0 cs ops => update_history_thm hc cs ops w0 [] w0 (fun a => eq_refl)). Qed.
+Print Assumptions C05_update_history.
+
+(* ... and afterwards Enabled, the reported level (Logger.Level, LevelOf) and the gRPC adapter's V of
+   every derived core agree with that delivery *)
+Theorem C05_update_queries : forall hc w0 ops c,
+  let w := ufinal hc w0 ops in
+  let wl := ulatest hc w0 ops in
+  (forall l, enabled w c l = true <-> delivered wl c l <> []) /\
+  level_ok wl c (level_of w c) /\
+  ((forall a, In a (cells c) -> min_level <= wl a <= InvalidL) -> level_of w c = min_delivered wl c) /\
+  (forall n, grpc_v w c n = true <-> delivered wl c (grpc_level n) <> []).
+Proof. exact update_queries_thm. Qed.
+Print Assumptions C05_update_queries.
 
 (* ---- samplers that really drop (C05/Sampling.v) ----
    Every sampler node is numbered by its pre-order position (k = number of the first one of the
@@ -207,6 +238,21 @@ Example C05_example_increase :
   increase_ok (fun _ => InfoL) (Leaf 0 (ELvl WarnL)) (ELvl ErrorL) = true /\
   increase_ok (fun _ => InfoL) (Leaf 0 (ELvl WarnL)) (ELvl InfoL) = false.
 Proof. vm_compute. split; reflexivity. Qed.
+(* two handles (0, 1) of cell 0 and one of cell 1: "DEBUG" through the second handle opens every
+   logger built from cell 0; a text that names no level and an empty form change nothing; a later
+   SetLevel through the first handle closes them again *)
+Example C05_example_updates :
+  let hc := fun h : nat => match h with 2 => 1 | _ => 0 end%nat in
+  let cs := [Leaf 0 (EAtom 0); Hooked (Tee [Leaf 1 (EAtom 0); Leaf 2 (EAtom 1)]) 9] in
+  map (fun ws => (leaves_of ws, hooks_of ws))
+    (urun hc (fun _ => InfoL) cs
+       [UCall 0 FLogger DebugL; UUpd 1 (UText RJson ex_DEBUG); UCall 0 FLogger DebugL; UCall 1 FSugar DebugL;
+        UUpd 0 (UText RUnmarshal ex_trace); UUpd 1 (UText RPutForm []); UCall 1 FCheck DebugL;
+        UUpd 0 (USet ErrorL); UCall 1 FLogger WarnL; UCall 0 FLogger WarnL])
+  = [([], []); ([0], []); ([1], [9]); ([1], [9]); ([2], [9]); ([], [])]%nat /\
+  upd_value RPutJson [] = Some InfoL /\ upd_value RPutForm [] = None /\
+  upd_value RYaml ex_WaRnInG = Some WarnL /\ upd_value RFlag ex_Level2 = None.
+Proof. vm_compute. repeat split; reflexivity. Qed.
 (* a sampled branch after an accepting hooked branch of a tee: the sampler (number 0) drops, the
    sibling keeps its entry and its hook; when it does not drop both branches are written *)
 Definition ex_sampled : core :=
